@@ -76,24 +76,24 @@ pub fn string_cfg(id: &str) -> GenCfg {
 /// the module emitter for a property
 pub fn module_for(id: &str, spec: &EnumSpec) -> ModuleSrc {
     match id {
-        "C01" => emit::module_string(spec, &ModOpts { property: id, run_fn: "vrt::strfam::c01", twin: None }),
-        "C02" => emit::module_string(spec, &ModOpts { property: id, run_fn: "vrt::strfam::c02", twin: None }),
-        "C03" => emit::module_string(spec, &ModOpts { property: id, run_fn: "vrt::strfam::c03", twin: Some(emit::Twin::Deprecated) }),
-        "C07" => emit::module_string(spec, &ModOpts { property: id, run_fn: "vrt::strfam::c07", twin: None }),
-        "C11" => emit::module_string(spec, &ModOpts { property: id, run_fn: "vrt::strfam::c11", twin: None }),
-        "C12" => emit::module_string(spec, &ModOpts { property: id, run_fn: "vrt::strfam::c12", twin: None }),
-        "C16" => emit::module_string(spec, &ModOpts { property: id, run_fn: "vrt::strfam::c16", twin: Some(emit::Twin::Phf) }),
-        "C17" => emit::module_string(spec, &ModOpts { property: id, run_fn: "vrt::strfam::c17", twin: None }),
-        "C18" => emit::module_string(spec, &ModOpts { property: id, run_fn: "vrt::strfam::c18", twin: None }),
-        "C04" => emit::module_iter(spec, &ModOpts { property: id, run_fn: "vrt::iterfam::c04", twin: None }),
-        "C05" => emit::module_iter(spec, &ModOpts { property: id, run_fn: "vrt::iterfam::c05", twin: None }),
-        "C08" => emit::module_iter(spec, &ModOpts { property: id, run_fn: "vrt::iterfam::c08", twin: None }),
-        "C06" => emit::module_repr(spec, &ModOpts { property: id, run_fn: "vrt::reprfam::c06", twin: None }),
-        "C13" => emit::module_shape(spec, &ModOpts { property: id, run_fn: "vrt::shapefam::c13", twin: None }),
-        "C14" => emit::module_string(spec, &ModOpts { property: id, run_fn: "vrt::metafam::c14", twin: None }),
-        "C15" => emit::module_string(spec, &ModOpts { property: id, run_fn: "vrt::metafam::c15", twin: None }),
-        "C10" => emit::module_table(spec, &ModOpts { property: id, run_fn: "vrt::tablefam::c10", twin: None }),
-        "C09" => emit::module_disc(spec, &ModOpts { property: id, run_fn: "vrt::discfam::c09", twin: None }),
+        "C01" => emit::module_string(spec, &ModOpts { property: id, run_fn: "vrt::strfam::c01", twin: None, fuzz_fn: None }),
+        "C02" => emit::module_string(spec, &ModOpts { property: id, run_fn: "vrt::strfam::c02", twin: None, fuzz_fn: None }),
+        "C03" => emit::module_string(spec, &ModOpts { property: id, run_fn: "vrt::strfam::c03", twin: Some(emit::Twin::Deprecated), fuzz_fn: None }),
+        "C07" => emit::module_string(spec, &ModOpts { property: id, run_fn: "vrt::strfam::c07", twin: None, fuzz_fn: None }),
+        "C11" => emit::module_string(spec, &ModOpts { property: id, run_fn: "vrt::strfam::c11", twin: None, fuzz_fn: None }),
+        "C12" => emit::module_string(spec, &ModOpts { property: id, run_fn: "vrt::strfam::c12", twin: None, fuzz_fn: None }),
+        "C16" => emit::module_string(spec, &ModOpts { property: id, run_fn: "vrt::strfam::c16", twin: Some(emit::Twin::Phf), fuzz_fn: None }),
+        "C17" => emit::module_string(spec, &ModOpts { property: id, run_fn: "vrt::strfam::c17", twin: None, fuzz_fn: None }),
+        "C18" => emit::module_string(spec, &ModOpts { property: id, run_fn: "vrt::strfam::c18", twin: None, fuzz_fn: None }),
+        "C04" => emit::module_iter(spec, &ModOpts { property: id, run_fn: "vrt::iterfam::c04", twin: None, fuzz_fn: None }),
+        "C05" => emit::module_iter(spec, &ModOpts { property: id, run_fn: "vrt::iterfam::c05", twin: None, fuzz_fn: None }),
+        "C08" => emit::module_iter(spec, &ModOpts { property: id, run_fn: "vrt::iterfam::c08", twin: None, fuzz_fn: None }),
+        "C06" => emit::module_repr(spec, &ModOpts { property: id, run_fn: "vrt::reprfam::c06", twin: None, fuzz_fn: None }),
+        "C13" => emit::module_shape(spec, &ModOpts { property: id, run_fn: "vrt::shapefam::c13", twin: None, fuzz_fn: None }),
+        "C14" => emit::module_string(spec, &ModOpts { property: id, run_fn: "vrt::metafam::c14", twin: None, fuzz_fn: None }),
+        "C15" => emit::module_string(spec, &ModOpts { property: id, run_fn: "vrt::metafam::c15", twin: None, fuzz_fn: None }),
+        "C10" => emit::module_table(spec, &ModOpts { property: id, run_fn: "vrt::tablefam::c10", twin: None, fuzz_fn: None }),
+        "C09" => emit::module_disc(spec, &ModOpts { property: id, run_fn: "vrt::discfam::c09", twin: None, fuzz_fn: None }),
         _ => panic!("no module emitter for {}", id),
     }
 }
